@@ -26,7 +26,7 @@ import (
 
 func init() {
 	oracles["C05"] = &oracle{
-		rule:  "nb: every level 1..13 x every built-in binary / assignment operator on either side, built-in prefix, postfix, call, member, index on either side, the operator itself, a second registered operator at every level; registered prefix '~' and postfix '?' next to every built-in operator class. Expected tree by level: built-in levels || 3, && 4, == != 5, < > <= >= 6, + - 7, * / % 8, prefix 9, postfix ++ -- 10, call 11, member/index 12, assignment 2 (right-associative: its right side takes every operator of level >= 2); the registered infix operator is left-associative (left operand level >= k, right operand level > k); registered prefix = level 9, registered postfix = call-level suffix (11). Left undetermined and skipped: a prefix operator in front of the left operand of an infix operator registered at exactly level 9. tree: shapes from the reference unparser with the registered levels, explicit parentheses added only where the text would be ambiguous (assignment left of a level-2 operator, prefix operator next to a level-9 operator) or where the unparser files member/index under level 11 instead of 12; hist: 4-14 calls over 9 names (with repeats) and built-in + dynamic token types: ids stable per name, pairwise distinct, >= 1000 and outside the built-in range; a call for a token that has the role already (built-in: prefix ! - ++ --, infix the 13 binary and 3 assignment operators, postfix ++ --; or registered earlier on this builder) must return an error; after every refused call a parser built from the builder must behave like one built just before it on 12 probe sources. Non-trivial = registration accepted and operator present in the source (nb/tree), at least one refused call (hist); distinct by (input, outcome)",
+		rule:  "nb: every level 1..13 x every built-in binary / assignment operator on either side, built-in prefix, postfix, call, member, index on either side, the operator itself, a second registered operator at every level; registered prefix '~' and postfix '?' next to every built-in operator class. Expected tree by level: built-in levels || 3, && 4, == != 5, < > <= >= 6, + - 7, * / % 8, prefix 9, postfix ++ -- 10, call 11, member/index 12, assignment 2 (right-associative: its right side takes every operator of level >= 2); the registered infix operator is left-associative (left operand level >= k, right operand level > k); registered prefix = level 9, registered postfix = call-level suffix (11). tree: shapes from the reference unparser with the registered levels, explicit parentheses added only where the text would be ambiguous (assignment left of a level-2 operator, prefix operator next to a level-9 operator) or where the unparser files member/index under level 11 instead of 12; hist: 4-14 calls over 9 names (with repeats) and built-in + dynamic token types: ids stable per name, pairwise distinct, >= 1000 and outside the built-in range; a call for a token that has the role already (built-in: prefix ! - ++ --, infix the 13 binary and 3 assignment operators, postfix ++ --; or registered earlier on this builder) must return an error; after every refused call a parser built from the builder must behave like one built just before it on 12 probe sources. Non-trivial = registration accepted and operator present in the source (nb/tree), at least one refused call (hist); distinct by (input, outcome)",
 		gen:   genC05,
 		check: countFailures(checkC05),
 	}
@@ -111,9 +111,8 @@ func c05Neighbour(k int, form, op string, k2 int) (src string, want *shape, unde
 		return src, pow(sh("asg", op, a, b), c), false
 	case "preL": // OP a ^ b
 		src = op + " a ^ b"
-		if k == lvUnary {
-			return src, nil, true
-		}
+		// k == lvUnary: a prefix operator application has level 9 >= k, so it is the left operand
+		// (C05_groups_by_level_x: spine_ge 9 (XPre ..) holds)
 		if k > lvUnary {
 			return src, sh("un", op, pow(a, b)), false
 		}
@@ -169,9 +168,8 @@ func c05Neighbour(k int, form, op string, k2 int) (src string, want *shape, unde
 	// registered prefix operator '~'
 	case "upL":
 		src = "~ a ^ b"
-		if k == lvUnary {
-			return src, nil, true
-		}
+		// k == lvUnary: a prefix operator application has level 9 >= k, so it is the left operand
+		// (C05_groups_by_level_x: spine_ge 9 (XPre ..) holds)
 		if k > lvUnary {
 			return src, sh("un", "~", pow(a, b)), false
 		}
